@@ -159,6 +159,12 @@ func gstmts(l []ast.Stmt) string {
 	return gseq(out)
 }
 
+// gLoopDepth counts the loop bodies around the statement being rendered
+var gLoopDepth int
+
+// functions in which a value-less `var x T` inside a loop body is rendered as a marker statement
+var gstmtVarMarker = map[string]bool{"cli.main": true}
+
 func gstmt(s ast.Stmt) string {
 	if s == nil {
 		return ".skip"
@@ -177,6 +183,11 @@ func gstmt(s ast.Stmt) string {
 					for i, n := range vs.Names {
 						if i < len(vs.Values) {
 							out = append(out, fmt.Sprintf("(.assign %s %s)", leanStr(n.Name), gexpr(vs.Values[i])))
+						} else if gLoopDepth > 0 && len(vs.Values) == 0 && vs.Type != nil && gstmtVarMarker[gstmtCur] {
+							// a value-less `var x T` inside a loop body re-initialises x to T's zero
+							// value on every round: kept as a marker statement (outside loops it happens
+							// once, before anything reads x, and is left out)
+							out = append(out, fmt.Sprintf("(.bindCall [%s] %s [])", leanStr(n.Name), leanStr("var "+srcText(vs.Type))))
 						}
 					}
 				}
@@ -306,7 +317,9 @@ func gstmt(s ast.Stmt) string {
 		return gseq([]string{gstmt(x.Init), fmt.Sprintf("(.ite %s %s %s)", gexpr(x.Cond), gstmt(x.Body), els)})
 	case *ast.ForStmt:
 		// `for { … }` / `for init; cond; post { … }`: loop (ite cond (body; post) brk)
+		gLoopDepth++
 		body := gseq([]string{gstmt(x.Body), gstmt(x.Post)})
+		gLoopDepth--
 		if x.Cond != nil {
 			body = fmt.Sprintf("(.ite %s %s .brk)", gexpr(x.Cond), body)
 		}
@@ -398,6 +411,8 @@ func gstmt(s ast.Stmt) string {
 // bodies containing an unlabelled `continue` are wrapped so that the increment follows (a one-shot
 // inner loop turns `cont` into leaving the body).
 func rangeBody(b *ast.BlockStmt) string {
+	gLoopDepth++
+	defer func() { gLoopDepth-- }()
 	hasCont := false
 	ast.Inspect(b, func(n ast.Node) bool {
 		if br, ok := n.(*ast.BranchStmt); ok && br.Tok == token.CONTINUE {
@@ -447,7 +462,7 @@ var gstmtFuncs = map[string]bool{
 
 var gstmtParams = map[string][]string{}
 var gstmtCur string
-var gstmtValueRange = map[string]bool{"ModbusServer.Stop": true, "cli.main": true}
+var gstmtValueRange = map[string]bool{"ModbusServer.Stop": true, "cli.main": true, "ModbusServer.extractRole": true}
 var gstmtTypedAppend = map[string]bool{"decodeBools": true, "encodeBools": true, "bytesToUint16s": true, "uint16sToBytes": true}
 
 func collectGStmt(fn string, fd *ast.FuncDecl, out map[string]string) {
